@@ -12,6 +12,12 @@ COMMON_NOTE = (
 )
 
 CHECKS = {
+    "C07": dict(
+        technique="bounded-exhaustive enumeration of directory contents x exhaustive enumeration of all permutations of the OS directory enumeration order (seam at VFS listdir), against a reference visible-set",
+        text="Every subset of <=3 (quick) / <=4 (thorough) names of a pool that sits on both sides of every alternative of the shipped ignore pattern (plus dot-files, directories, extension ties) is listed by both directory handlers under ALL permutations of the enumeration order; "
+             "curated 6-entry directories with conflicting link files under all 720 permutations. The listing must contain exactly the reference visible set, once each, be byte-identical under every permutation (name-sorted for DirHandler), and every entry kept out of it must be retrievable by exact selector with its exact bytes.",
+        design_ref="DESIGN.md 3/C07",
+    ),
     "C04": dict(
         technique="bounded-exhaustive enumeration of documents (content class x size x name) x protocols x handler lists, plus deviation-bounded DFS over short-read patterns of the VFS file object, on the implementation",
         text="Every document of the cross product content classes x sizes around each multiple of the 4096-byte copy block x names (spaces, reserved URL characters, non-UTF-8, encodings, unknown and upper-case extensions) is fetched through 10 protocol forms under both handler lists; "
